@@ -66,8 +66,13 @@ def gen_program(rng, length, mix):
         elif o == "gc":
             prog.append(["gc"])
         elif o == "slice":
-            prog.append(["slice", s, rng.choice([None, 0, 1, -1, 2, 5]), rng.choice([None, 0, 1, 2, -1, 9]),
-                         rng.choice([None, 1, 2, -1])])
+            if rng.random() < 0.35:       # a slice that covers the whole vector (v[:], v[0:], v[:99])
+                prog.append(["slice", s, rng.choice([None, 0, None]), rng.choice([None, 9, 99]), rng.choice([None, 1])])
+            else:
+                prog.append(["slice", s, rng.choice([None, 0, 1, -1, 2, 5]), rng.choice([None, 0, 1, 2, -1, 9]),
+                             rng.choice([None, 1, 2, -1])])
+        elif o == "vcat":                 # v << list (the empty list included)
+            prog.append(["vcat", s, rand_vals(rng, rng.choice([0, 0, 1, 2]))])
         elif o == "mask":
             prog.append(["mask", s, [rng.random() < 0.5 for _ in range(6)]])
         elif o == "colview":
@@ -75,7 +80,8 @@ def gen_program(rng, length, mix):
         elif o == "selcols":
             prog.append(["selcols", s, [rng.randint(0, 3) for _ in range(rng.randint(1, 3))]])
         elif o == "stack":
-            prog.append(["stack", s, rng.choice([["slot", s2], ["lit", rand_vals(rng, n)], ["dict", "n", rand_vals(rng, n)]])])
+            prog.append(["stack", s, rng.choice([["slot", s2], ["lit", rand_vals(rng, n)], ["dict", "n", rand_vals(rng, n)],
+                                                 ["dictslot", rng.choice(["n", "q", "a"]), s2]])])
         elif o == "append":
             prog.append(["append", s, s2])
         elif o == "join":
@@ -210,6 +216,10 @@ def snapshot_state(w):
         d = o.__dict__
         und = d.get("_underlying")
         fp = d.get("_fp")
+        if type(fp) is not int:
+            # no memo, or a memo in a representation this abstraction function does not know (then the
+            # state-level comparison may disagree; the behavioural oracle C16-stale still decides the property)
+            fp = None
         fpt = "None" if fp is None else f"(Some {cz(int(fp))})"
         if isinstance(o, Table):
             cols = [w.handle_of(c) for c in und]
@@ -265,7 +275,15 @@ def oracle_tables(w, live):
                 w.findings.append(f"C02-len: len(table)={len(o)} but columns have {n} rows")
             if cols and tuple(o.shape) != (n, len(cols)):
                 w.findings.append(f"C02-shape: shape {o.shape} for {n} rows x {len(cols)} columns")
-            rows_idx = [tuple(o[i]) for i in range(n)] if cols else []
+            # all rows are OBTAINED first and only then read: a row the program holds must not change when
+            # another row of the same table is looked at (indexing returns a new object; C01)
+            held_rows = [o[i] for i in range(n)] if cols else []
+            rows_idx = [tuple(r) for r in held_rows]
+            del held_rows
+            now_rows = [tuple(o[i]) for i in range(n)] if cols else []
+            if not _same(rows_idx, now_rows):
+                w.findings.append(f"C01-held-row: rows obtained by t[i] and held show {rows_idx}, read one at a time "
+                                  f"they show {now_rows}: looking at one row changed a row the program already held")
             rows_it = [tuple(r) for r in o] if cols else []
             want = [tuple(c.__dict__["_underlying"][i] for c in cols) for i in range(n)]
             if cols and (not _same(rows_idx, want) or not _same(rows_it, want)):
@@ -365,6 +383,14 @@ def _exec(w, pop, changed_ok):
             else:
                 r = o.copy()
                 op_term = _vec_result(w, r, f"(CFrom {cnat(w.handle_of(o))} None)")
+        elif kind == "vcat":
+            o = w.slot(pop[1], "v")
+            if o._dtype is None and not pop[2]:
+                raise Skip()
+            r = o << list(pop[2])
+            if isinstance(r, Table) or not isinstance(r, Vector):
+                raise Skip()
+            op_term = _vec_result(w, r, f"(CCat {cnat(w.handle_of(o))} {_vals(w, pop[2])})")
         elif kind in ("slice", "mask"):
             o = w.slot(pop[1])
             n = len(o) if not isinstance(o, Table) else (len(o._underlying[0]) if o._underlying else 0)
@@ -431,6 +457,10 @@ def _exec(w, pop, changed_ok):
             elif what[0] == "lit":
                 specs.append(f"(CLit {_vals(w, what[1])} None)")
                 arg = list(what[1])
+            elif what[0] == "dictslot":                  # t >> {name: <a vector the program holds>}
+                o2 = w.slot(what[2], "v")
+                specs.append(f"(CFromAs {cnat(w.handle_of(o2))} (Some {cnat(w.name_tok(what[1]))}))")
+                arg = {what[1]: o2}
             else:
                 specs.append(f"(CLit {_vals(w, what[2])} (Some {cnat(w.name_tok(what[1]))}))")
                 arg = {what[1]: list(what[2])}
@@ -457,7 +487,11 @@ def _exec(w, pop, changed_ok):
             if not c1 or len(c1) != len(c2):
                 raise Skip()
             specs = [f"(CCat {cnat(w.handle_of(a))} {_vals(w, b._underlying)})" for a, b in zip(c1, c2)]
-            r = t << t2
+            from serif.errors import SerifTypeError
+            try:
+                r = t << t2
+            except SerifTypeError:                           # two typesafe columns of different kinds: refused
+                raise Skip()
             if not isinstance(r, Table):
                 raise Skip()
             op_term = _table_result(w, r, specs)
@@ -610,7 +644,23 @@ def run_program(prog, delay_gc=True):
                     w.findings.append(f"C01-leak: {kind} changed object h{h} that it must not touch: "
                                       f"{_view(shadow0, h)} -> {_view(shadow1, h)}")
         oracle_tables(w, live1)
-        w.steps.append(f"mkT ({op_term}) {clist(cnat(h) for h in died)} {out_term} {state_term}")
+        # ---- C15 oracle: whatever the library builds itself (copies, slices, masks, results, table columns) shares
+        # storage with no other live vector - only Vector(T) over a caller-supplied tuple may share
+        o1 = None
+        if not (kind == "newvec" and pop[3] is not None):
+            for h, o1 in live1.items():
+                if h in shadow0 or isinstance(o1, Table):
+                    continue
+                und = o1.__dict__.get("_underlying")
+                if und:                                        # the empty tuple is one interpreter-wide object
+                    others = sharers(o1)
+                    if others:
+                        w.findings.append(f"C15-derived-shares: the {type(o1).__name__} produced by {kind} ({list(und)!r}) "
+                                          f"shares its storage tuple with {len(others)} other live vector(s): a write "
+                                          f"to either is refused although the program never built them over one tuple")
+        del o1
+        share = kind == "newvec" and pop[3] is not None       # Vector(caller tuple): the one op that may share
+        w.steps.append(f"mkT ({op_term}) {cbool(share)} {clist(cnat(h) for h in died)} {out_term} {state_term}")
         del live1
         if w.unsupported:
             break
